@@ -416,7 +416,30 @@ class JsonTyper:
         if fn is None:
             return None
         body = [b for b in fn.body if not (isinstance(b, ast.Expr) and isinstance(b.value, ast.Constant))]
-        if len(body) != 1 or not isinstance(body[0], ast.Return) or body[0].value is None:
+        # the body may only select among returned expressions: if / return (/ pass); every returned expression is typed and joined
+        rets: list = []
+
+        def scan(stmts) -> bool:
+            """Collects the returned expressions; True when the block always returns."""
+            for st in stmts:
+                if isinstance(st, ast.Return):
+                    rets.append(st.value if st.value is not None else ast.Constant(None))
+                    return True
+                if isinstance(st, ast.If):
+                    a, b = scan(st.body), scan(st.orelse)
+                    if a and b:
+                        return True
+                    continue
+                if isinstance(st, ast.Pass) or (isinstance(st, ast.Expr) and isinstance(st.value, ast.Constant)):
+                    continue
+                raise ValueError
+            return False
+        try:
+            if not scan(body):
+                rets.append(ast.Constant(None))
+        except ValueError:
+            return None
+        if not rets:
             return None
         if fn.args.vararg or fn.args.kwarg or fn.args.kwonlyargs:
             return None
@@ -439,7 +462,18 @@ class JsonTyper:
         self.ti.scopes, self.ti.mod, self.ti.owner = [scope], mod, owner if owner is not None else None
         self._depth = getattr(self, '_depth', 0) + 1
         try:
-            return self.of(body[0].value)
+            out = None
+            for r in rets:
+                t = self.of(r)
+                if out is None:
+                    out = dict(t)
+                    out['types'] = set(t['types'])
+                else:
+                    out['types'] |= t['types']
+                    for k in ('items', 'properties', 'additional', 'unknown', 'language', 'undecided'):
+                        if k in t and k not in out:
+                            out[k] = t[k]
+            return out
         finally:
             self._depth -= 1
             self.ti.scopes, self.ti.mod, self.ti.owner = saved
